@@ -43,8 +43,10 @@ def binops(o):
 def expect_field(ctx, rule, fn, b, struct, field, origins, want_path, ops_required=(), ops_forbidden=("any",), extra_ok=lambda o: False):
     """Every data origin of the operand is the record field `want_path`, met with the required arithmetic."""
     src = data(origins)
-    rk = 2 if fn.kind == "Closure" else 1      # the record: the mapping closure's parameter, or a constructor's first parameter
-    recs = [o for o in src if o.kind == "param" and o.key == rk]
+    # the record: the parameter whose type is (a container of) the record type -- the mapping closure's argument, a
+    # constructor's first parameter, or the batch a loop iterates over
+    rks = [i for i in range(1, fn.arg_count + 1) if re.search(r"collector::(SpanRecord|EventRecord)\b", fn.locals[i])] or [1, 2]
+    recs = [o for o in src if o.kind == "param" and o.key in rks]
     good = bool(recs) and all(rec_field(o, *want_path) for o in recs)
     arith_ok = True
     for o in recs:
@@ -54,7 +56,7 @@ def expect_field(ctx, rule, fn, b, struct, field, origins, want_path, ops_requir
                 arith_ok = False
         if ops_forbidden == ("any",) and not ops_required and [x for x in ops if x[0] not in ()]:
             arith_ok = False
-    other = [o for o in src if not (o.kind == "param" and o.key == rk) and o.kind in ("param", "upvar") and not extra_ok(o)]
+    other = [o for o in src if not (o.kind == "param" and o.key in rks) and o.kind in ("param", "upvar") and not extra_ok(o)]
     ctx.check(good and arith_ok and not other, rule, fn.path, fn.loc(b),
               "%s.%s <- record.%s%s" % (struct, field, "".join(want_path).lstrip("."),
                                         (" with " + ", ".join("%s %s" % x for x in ops_required)) if ops_required else " (no arithmetic)"),
